@@ -608,7 +608,11 @@ func (c *Client) negotiateVersion(ctx context.Context) error {
 	if err := bi.Err(); err != nil {
 		return err
 	}
-	serverVersions := bi.ResponsePayload.(*payloads.DiscoverVersionsResponsePayload).ProtocolVersion
+	discovered, ok := bi.ResponsePayload.(*payloads.DiscoverVersionsResponsePayload)
+	if !ok {
+		return fmt.Errorf("Protocol version negotiation failed. Unexpected response payload type %T", bi.ResponsePayload)
+	}
+	serverVersions := discovered.ProtocolVersion
 	// Adopt the highest version that is both advertised by the server and configured on the client,
 	// whatever the order (or filtering) of the server's list.
 	var best *kmip.ProtocolVersion
